@@ -107,4 +107,13 @@ example : (match runRaw { parity := 0 } [exReq, exData, exWildAck, exLong, exOth
     | .ok m => (m.tubes.map fun t => (t.id, t.ttype, t.rx.buffer, t.state == .initiated), m.queue.length)
     | _ => ([], 0)) = ([(4, 9, [], true), (3, 7, [0xAA, 0xBB], true)], 2) := by decide
 
+/-- **C11 (regenerated from tubes/muxer.go and transport/common.go).** The muxer's receive buffer holds the
+largest message the transport below can deliver — `Handle.ReadMsg` answers a message that does not fit with
+`ErrBufOverflow`, which the receiver loop treats as fatal, so one legal but long message from the peer would
+end the whole session — and a datagram it holds never exceeds the 65535 bytes the receive path is modelled
+for (`C11_no_panic`'s assumption). -/
+theorem C11_receive_buffer_holds_any_message :
+    Generated.transport_MaxPlaintextSize ≤ Generated.tubes_readBuf_size ∧
+      Generated.tubes_readBuf_size ≤ 65535 := by decide
+
 end Tubes
